@@ -127,7 +127,7 @@ class EditRun:
                         out = ('ok', val)
                     except Skip as e:
                         out = ('skip', str(e))
-                    except Violation:
+                    except (Violation, StopRun):
                         raise
                     except RecursionError as e:
                         out = ('exc', e)
